@@ -166,10 +166,20 @@ Definition of_edge_list (es : list (nat * nat * L)) : outcome dgraph :=
      let m := Nat.max i j in
      obind (if Nat.leb (size h) m then lift (resize h (S m)) else Val h) (fun h1 => lift (add_edge h1 i j l false)))) es (Val (init 0)).
 
+(* range-for over the vertices (VertexIterator) *)
+Fixpoint vertex_loop (fuel pos endp : nat) : list nat :=
+  if Nat.eqb pos endp then [] else match fuel with O => [] | S f => pos :: vertex_loop f (S pos) endp end.
+Definition vertex_range (n : nat) : list nat := vertex_loop n 0 n.
+(* the iteration segment of an observation: the vertex sequence, then three flags: post-increment traversal = pre-increment traversal,
+   second traversal = first (both hold by construction in a pure model), begin() == end() *)
+Definition iter_segment (g : dgraph) : list Z :=
+  map Z.of_nat (vertex_range (size g)) ++ [1; 1; match edges_begin g, edges_end g with Val b, Val e => zbool (cursor_eqb b e) | Raise e, _ | _, Raise e => zexn e | _, _ => zub end].
+
 (* ---- everything the public observers report, as integers ---- *)
 Definition zn (n : nat) : Z := Z.of_nat n.
 (* segments: 0 size/edge count, 1 hasEdge, 2 out-degree + neighbour multiset per vertex, 3 labels (non-throwing value, throwing outcome),
-   4 hasEdge(i,j,l), 5 in-degrees / in-degree / out-degrees, 6 adjacency matrix, 7 edges(): length + multiplicity of every pair *)
+   4 hasEdge(i,j,l), 5 in-degrees / in-degree / out-degrees, 6 adjacency matrix, 7 edges(): length + multiplicity of every pair,
+   8 iteration: vertex sequence + traversal flags *)
 Definition observe (g : dgraph) : list (list Z) :=
   let n := size g in let vs := seq 0 n in
   [ [zn n; enum g];
@@ -179,7 +189,8 @@ Definition observe (g : dgraph) : list (list Z) :=
     flat_map (fun e => map (fun l => zout zbool (has_edge_l g (fst e) (snd e) l)) lalpha) (pairs n);
     zvec zn n (in_degrees g) ++ map (fun i => zout zn (in_degree g i)) vs ++ zvec zn n (out_degrees g);
     match adjacency_matrix g with Val m => map zn (concat m) | Raise e => repeat (zexn e) (n * n) | Undef _ => repeat zub (n * n) end;
-    match iterate g with Val es => zn (length es) :: map (fun e => zn (length (filter (edge_eqb e) es))) (pairs n) | Raise e => repeat (zexn e) (S (n * n)) | Undef _ => repeat zub (S (n * n)) end ].
+    match iterate g with Val es => zn (length es) :: map (fun e => zn (length (filter (edge_eqb e) es))) (pairs n) | Raise e => repeat (zexn e) (S (n * n)) | Undef _ => repeat zub (S (n * n)) end;
+    iter_segment g ].
 
 (* ---- histories ---- *)
 Inductive dop :=
